@@ -47,12 +47,13 @@ fn parse_pack_build(argv: &[String]) -> Result<(Vec<String>, Vec<(String, String
     let bool_flags = ["--trust-builder", "--trust-extra-buildpacks"];
     if argv.first().map(String::as_str) != Some("build") { return Err("not a pack build".into()); }
     let (mut pos, mut vals, mut flags) = (vec![], vec![], BTreeSet::new());
+    let canon = |f: &str| match f { "-B" => "--builder", "-p" => "--path", "-b" => "--buildpack", "-e" => "--env", o => o }.to_string();
     let mut i = 1;
     while i < argv.len() {
         let a = argv[i].as_str();
         if value_flags.contains(&a) {
             let v = argv.get(i + 1).ok_or(format!("{a} without a value"))?;
-            vals.push((a.to_string(), v.clone()));
+            vals.push((canon(a), v.clone()));
             i += 2;
         } else if bool_flags.contains(&a) {
             flags.insert(a.to_string());
@@ -77,15 +78,16 @@ fn parse_docker_run(argv: &[String]) -> Result<(Vec<(String, String)>, BTreeSet<
     let bool_opts = ["--detach", "-d", "--rm"];
     if argv.first().map(String::as_str) != Some("run") { return Err("not a docker run".into()); }
     let (mut vals, mut flags) = (vec![], BTreeSet::new());
+    let canon = |f: &str| match f { "-e" => "--env", "-p" => "--publish", "-v" => "--volume", "-d" => "--detach", o => o }.to_string();
     let mut i = 1;
     while i < argv.len() {
         let a = argv[i].as_str();
         if value_opts.contains(&a) {
             let v = argv.get(i + 1).ok_or(format!("{a} without a value"))?;
-            vals.push((a.to_string(), v.clone()));
+            vals.push((canon(a), v.clone()));
             i += 2;
         } else if bool_opts.contains(&a) {
-            flags.insert(a.to_string());
+            flags.insert(canon(a));
             i += 1;
         } else if a.starts_with("--") && a.contains('=') && value_opts.contains(&a.split('=').next().unwrap()) {
             let (k, v) = a.split_once('=').unwrap();
@@ -317,7 +319,7 @@ fn run_scenario(sc: &Value, idx: usize, bin: &Path, scratch: &Path, local: bool)
                             if got_env != want_env { p17.push(format!("docker run: env {got_env:?}, configured {want_env:?}")); }
                             let mut want_ports: BTreeSet<u16> = k["ports"].as_array().unwrap().iter().map(|p| p.as_u64().unwrap() as u16).collect();
                             want_ports.insert(8080);
-                            let got_ports: Result<BTreeSet<u16>, _> = get("--publish").iter().map(|p| p.strip_prefix("127.0.0.1::").ok_or(()).and_then(|x| x.parse::<u16>().map_err(|_| ()))).collect();
+                            let got_ports: Result<BTreeSet<u16>, _> = get("--publish").iter().map(|p| p.rsplit(':').next().map(|x| x.trim_end_matches("/tcp")).ok_or(()).and_then(|x| x.parse::<u16>().map_err(|_| ()))).collect();
                             if got_ports != Ok(want_ports.clone()) { p17.push(format!("docker run: published ports {:?}, configured {want_ports:?}", get("--publish"))); }
                             let mut want_m: Vec<String> = k["mounts"].as_array().unwrap().iter().map(|m| format!("type=bind,source={},target={}", m[0].as_str().unwrap(), m[1].as_str().unwrap())).collect();
                             want_m.sort();
@@ -344,18 +346,19 @@ fn run_scenario(sc: &Value, idx: usize, bin: &Path, scratch: &Path, local: bool)
             "logs" | "port" | "exec" | "rm" => {
                 let name = argv.get(1).cloned().unwrap_or_default();
                 let c = containers.iter().position(|n| *n == name).map_or(name.clone(), |i| format!("c{}", i + 1));
-                if kind == "rm" && !argv.contains(&"--force".to_string()) { p16.push("docker rm without --force".into()); }
+                let forced = |argv: &[String]| argv.iter().any(|a| a == "--force" || a == "-f");
+                if kind == "rm" && !forced(&argv) { p16.push("docker rm without --force".into()); }
                 cmds.push(json!({"cmd": kind, "arg": c}));
             }
             "rmi" => {
-                if !argv.contains(&"--force".to_string()) { p16.push("docker rmi without --force".into()); }
+                if !argv.iter().any(|a| a == "--force" || a == "-f") { p16.push("docker rmi without --force".into()); }
                 // no pack build was logged (packaging failed first): the run's own names are the generated ones
                 if image.is_none() { if let Some(n) = argv.get(1).filter(|n| n.starts_with("libcnbtest_")) { image = Some(n.clone()); } }
                 cmds.push(json!({"cmd": "rmi", "arg": own(&image, argv.get(1).map_or("", String::as_str))}));
             }
             "volume-rm" => {
-                let names: BTreeSet<String> = argv[2..].iter().filter(|a| !a.starts_with("--")).cloned().collect();
-                if !argv.contains(&"--force".to_string()) { p16.push("docker volume remove without --force".into()); }
+                let names: BTreeSet<String> = argv[2..].iter().filter(|a| !a.starts_with('-')).cloned().collect();
+                if !argv.iter().any(|a| a == "--force" || a == "-f") { p16.push("docker volume remove without --force".into()); }
                 if vols.is_empty() { if let Some(i) = &image { vols = [format!("{i}.build-cache"), format!("{i}.launch-cache")].into_iter().collect(); } }
                 cmds.push(json!({"cmd": "volume-rm", "arg": if names == vols && !vols.is_empty() { "vols".to_string() } else { format!("{names:?}") }}));
             }
